@@ -164,7 +164,7 @@ def run(prop, tier):
     cov = {"states": gstats["distinct"] + tstates, "transitions": gstats["states"] + consumed, "traces_validated_against_impl": consumed,
            "samples": samples, "programs": len(cases), "families": gstats["families"], "generation2_compiled": n2,
            "known_findings_hit": sorted({k for k, _ in known_hits}), "binding_selftest": "rejected: described-hash256-differs",
-           "exhaustive": True,
+           "exhaustive": False, "exhaustively_enumerated_depth": max(dp for _, dp in fams),
            "rule": "every program of each TypeGen family (incl. the describe family: non-identifier keys, shared / recursive names); "
                    "generation 2 = describe() text + buildParsers<{T: CodecT}>"}
     vlib.write_evidence(prop, tier, cov, time.time() - t0, len(violations),
